@@ -51,6 +51,11 @@ def call(ex, st, fn, args, kw, node):
             yield st, False; return
         if isinstance(v, Ref): yield st, S.is_subclass(v.cls, tn); return
         raise Unsupported("isinstance %r %r" % (v, t))
+    if name in ("any", "all") and len(args) == 1 and isinstance(args[0], (list, tuple)):
+        ts = [ex.truth(x) for x in args[0]]
+        if all(not isinstance(t, Sym) for t in ts): yield st, (any(ts) if name == "any" else all(ts)); return
+        zs = [t.z if isinstance(t, Sym) else z3.BoolVal(bool(t)) for t in ts]
+        yield st, Sym(BOOL, z3.Or(*zs) if name == "any" else z3.And(*zs)); return
     if name == "range":
         if all(isinstance(a, int) for a in args): yield st, list(range(*args)); return
         if len(args) <= 2:
